@@ -149,6 +149,8 @@ cfm = sym('cfm', (T,), T, None)                         # components_from_metric
 
 ndistinct = sym('ndistinct', (T,), I, lambda v: int(len(_np.unique(v))))
 
+of_list = sym('of_list', (_Ref,), T, None)            # ndarray holding the numbers of a python list
+
 # ---- spec functions (contract vocabulary)
 mdist = sym('mdist', (T, T, T), R,                         # d_L(x, y) = || L (x - y) ||_2
             lambda L, x, y: float(_np.sqrt(((L @ (x - y)) ** 2).sum())))
